@@ -29,6 +29,14 @@ fn fcaps(c: &fancy_regex::Captures) -> Vec<Span> {
 fn rcaps(c: &regex::Captures) -> Vec<Span> {
     c.iter().map(|m| m.map(|m| (m.start(), m.end()))).collect()
 }
+/// The regex crate forgets trailing groups that can never participate in a match (`(a){0}`), while
+/// the crate under test keeps the syntactic group count (C16): such groups are "unset" on both sides.
+fn pad(mut r: Vec<Span>, n: usize) -> Vec<Span> {
+    while r.len() < n {
+        r.push(None);
+    }
+    r
+}
 
 impl VsRegex {
     fn opts(&self, n: &Node) -> PrintOpts {
@@ -110,7 +118,7 @@ impl PatProp for VsRegex {
             let mut from = 0;
             loop {
                 let f = fr.captures_from_pos(t, from).map_err(|x| e("captures_from_pos", x))?.map(|c| fcaps(&c));
-                let r = rr.captures_at(t, from).map(|c| rcaps(&c));
+                let r = rr.captures_at(t, from).map(|c| pad(rcaps(&c), fr.captures_len()));
                 if f != r {
                     return Err(Fail::new("captures_from_pos", format!("from {}: {:?}", from, r), format!("{:?}", f)));
                 }
@@ -144,7 +152,7 @@ impl PatProp for VsRegex {
                     break;
                 }
             }
-            let r: Vec<_> = rr.captures_iter(t).map(|c| rcaps(&c)).collect();
+            let r: Vec<_> = rr.captures_iter(t).map(|c| pad(rcaps(&c), fr.captures_len())).collect();
             if f != r {
                 return Err(Fail::new("captures_iter", format!("{:?}", r), format!("{:?}", f)));
             }
